@@ -68,6 +68,12 @@ fn build(case: &Value) -> Built {
         "b2_missing" => b2 = None,
         _ => {}
     }
+    if case["addr"] == "branch" {
+        // LT address = BIC8 + terminal code + branch code
+        let sub = |s: String| s.replace("BANKBEBBAXXX", "BANKBEBBA123").replace("BANKDEFFXXXX", "BANKDEFFX456");
+        b1 = b1.map(sub);
+        b2 = b2.map(sub);
+    }
     let mut b3: Vec<(String, String)> = B3_ORDER.iter().filter(|(t, _)| b3tags.iter().any(|x| x == t)).map(|(t, v)| (t.to_string(), v.to_string())).collect();
     if fault == "mur_with_colon_digit" {
         for e in b3.iter_mut() {
@@ -143,6 +149,10 @@ pub fn run(args: &[String]) -> i32 {
     let mut evaluated = 0u64;
     let mut nontrivial = 0u64;
     let mut violations: Vec<Value> = Vec::new();
+    let mut c02: Vec<Value> = Vec::new();
+    let mut c08: Vec<Value> = Vec::new();
+    let mut c08_evaluated = 0u64;
+    let mut c02_evaluated = 0u64;
     let mut samples: Vec<Value> = Vec::new();
     let mut notes: BTreeMap<String, u64> = BTreeMap::new();
     for line in f.lines().map_while(|l| l.ok()) {
@@ -175,6 +185,39 @@ pub fn run(args: &[String]) -> i32 {
             continue;
         }
         let ser = match guarded(|| m.to_mt_message()) { Ok(s) => s, Err(p) => { push(format!("C10|panic-on-serialise|{}", fault), json!({"panic": p})); continue; } };
+        // C02 on the envelope: the serialised text is accepted again, gives an equal message, and is a fixed point
+        {
+            let sh = case["b2"].as_str().unwrap_or("");
+            let rp = json!({"kind": "envelope", "case": case, "text": built.text, "ser": ser});
+            c02_evaluated += 1;
+            match guarded(|| SwiftParser::parse::<MT103>(&ser)) {
+                Ok(Ok(m2)) => {
+                    if serde_json::to_value(&m2).ok() != serde_json::to_value(&m).ok() {
+                        c02.push(json!({"sig": format!("C02|envelope|value-changed|b2={}", sh), "replay": rp}));
+                    } else if guarded(|| m2.to_mt_message()).ok().as_ref() != Some(&ser) {
+                        c02.push(json!({"sig": format!("C02|envelope|not-fixed-point|b2={}", sh), "replay": rp}));
+                    }
+                }
+                _ => c02.push(json!({"sig": format!("C02|envelope|reparse-rejected|b2={}", sh), "replay": rp})),
+            }
+        }
+        // C08 on the envelope: JSON and back gives an equal message that serialises to the same text
+        {
+            let sh = format!("b2={}|addr={}", case["b2"].as_str().unwrap_or(""), case["addr"].as_str().unwrap_or("xxx"));
+            let rp = json!({"kind": "envelope", "case": case, "text": built.text});
+            c08_evaluated += 1;
+            match guarded(|| serde_json::to_string(&m).ok().and_then(|j| serde_json::from_str::<swift_mt_message::SwiftMessage<MT103>>(&j).ok())) {
+                Ok(Some(back)) => {
+                    if serde_json::to_value(&back).ok() != serde_json::to_value(&m).ok() || format!("{:?}", back) != format!("{:?}", m) {
+                        c08.push(json!({"sig": format!("C08|envelope|json-roundtrip-differs|{}", sh), "replay": rp}));
+                    } else if guarded(|| back.to_mt_message()).ok().as_ref() != Some(&ser) {
+                        c08.push(json!({"sig": format!("C08|envelope|publish-differs|{}", sh), "replay": rp}));
+                    }
+                }
+                Ok(None) => c08.push(json!({"sig": format!("C08|envelope|json-back-failed|{}", sh), "replay": rp})),
+                Err(pn) => c08.push(json!({"sig": format!("C08|envelope|panic|{}", sh), "replay": rp, "detail": {"panic": pn}})),
+            }
+        }
         let blocks = blocks_of(&ser);
         if let Some(b1) = &built.b1 {
             if blocks.get("1") != Some(b1) { push("C10|block1|not-reproduced".into(), json!({"ser": blocks.get("1")})); }
@@ -218,6 +261,6 @@ pub fn run(args: &[String]) -> i32 {
             samples.push(json!({"case": case, "text": built.text}));
         }
     }
-    std::fs::write(out_path, json!({"evaluated": evaluated, "distinct_nontrivial": nontrivial, "violations": violations, "samples": samples, "notes": notes}).to_string()).expect("write");
+    std::fs::write(out_path, json!({"evaluated": evaluated, "distinct_nontrivial": nontrivial, "violations": violations, "c02_violations": c02, "c02_evaluated": c02_evaluated, "c08_violations": c08, "c08_evaluated": c08_evaluated, "samples": samples, "notes": notes}).to_string()).expect("write");
     0
 }
